@@ -52,6 +52,11 @@ def corpora(draw):
             v = draw(st.sampled_from(pools[k]))
             if k in ("n", "s") and draw(st.booleans()):
                 v = {"x": v, "y": draw(st.sampled_from(pools["a"]))}
+                if draw(st.booleans()):
+                    # three and four levels deep, several leaves below one second-level key
+                    v = {"c": {"x": draw(st.sampled_from(pools["a"])), "y": draw(st.sampled_from(pools["b"])), "z": 9,
+                               "w": {"x": draw(st.sampled_from(pools["b"])), "y": draw(st.sampled_from(pools["a"]))}},
+                         "d": v["x"]}
             sp[k] = v
         jobs.append(sp)
     return jobs
@@ -282,6 +287,8 @@ def _eq(a, b):
 
 CONSTRUCTED = [
     {"jobs": [{"s": 1, "pressure": 2.5, "sp_x": "1", "ps": {"x": 1, "y": 0}}, {"s": {"x": 1, "y": 2}, "pressure": 2.5, "ps": 0}], "subset": None, "subset_kind": "ids", "exclude_const": True, "diffs": [[0, 1]]},
+    {"jobs": [{"a": 0, "b": {"d": 5, "c": {"x": 1, "y": 2, "z": 9, "w": {"p": 1, "q": 2}}}}, {"a": 0, "b": {"d": 5, "c": {"x": 3, "y": 4, "z": 9, "w": {"p": 2, "q": 1}}}},
+              {"a": 0, "b": {"d": 6, "c": {"x": 3, "y": 2, "z": 9, "w": {"p": 1, "q": 1}}}}], "subset": None, "subset_kind": "ids", "exclude_const": True, "diffs": [[0, 1, 2], [0, 2]]},
     {"jobs": [{"a": True}, {"a": 1}], "subset": None, "subset_kind": "ids", "exclude_const": True, "diffs": [[0, 1]]},
     {"jobs": [{"a": 1}, {"a": 1.0}, {"a": "1"}], "subset": [0, 1], "subset_kind": "jobs", "exclude_const": True, "diffs": [[0, 1, 2], [0]]},
     {"jobs": [{"a": 1, "n": {"x": 1, "y": 2}}, {"a": 1, "n": 3}, {"a": 1}], "subset": None, "subset_kind": "ids", "exclude_const": True, "diffs": [[0, 1, 2], []]},
